@@ -1899,10 +1899,63 @@ class Executor:
         return simp(n) if not isinstance(n, int) else n
 
     def op_Range(self, fn, ins, env, st):
-        raise Unsupported('range over map/string (iteration order is unspecified in Go; not modelled)')
+        # range over a map: Go leaves the order unspecified and randomises where it starts. Modelled as the insertion order
+        # rotated by a fresh unconstrained offset per range statement (an under-approximation of the permitted orders, enough to
+        # expose code whose result depends on the order). Entries must be definitely present or absent.
+        xt = self.p.T(ins['xt'])
+        if xt['k'] != 'map':
+            raise Unsupported('range over string')
+        m = self.operand(ins['x'], env)
+        ents = []
+        for (ek, ev, ep) in (self.map_entries(st, m) or ()):
+            if ep is False:
+                continue
+            if ep is not True:
+                ep2 = self.concretize(st, ep) if not isinstance(ep, bool) else ep
+                if ep2 is True:
+                    pass
+                elif ep2 is False:
+                    continue
+                else:
+                    raise Unsupported('range over a map with symbolically present entries')
+            ents.append((ek, ev))
+        n = len(ents)
+        rot = 0
+        if n >= 2:
+            self.nondet_n += 1
+            self.nondet_sites.append(('map iteration order', ins.get('pos')))
+            rot = z3.BitVec('nondet!maporder!%d' % self.nondet_n, 8)
+            st.assume(z3.ULT(rot, z3.BitVecVal(n, 8)))
+        oid = self.new_obj(st, ('iterpos', 0), None)
+        env[ins['name']] = ('mapiter', tuple(ents), rot, oid)
+        return st
 
     def op_Next(self, fn, ins, env, st):
-        raise Unsupported('next')
+        it = self.operand(ins['iter'], env)
+        if not (isinstance(it, tuple) and it and it[0] == 'mapiter'):
+            raise Unsupported('next on a string iterator')
+        _, ents, rot, oid = it
+        pos = st.heap[oid][1]
+        if pos is None:
+            raise Unsupported('map iterator used after paths with different positions were merged')
+        t = self.p.T(ins['type'])
+        kz, vz = self.zero(t['elems'][1]), self.zero(t['elems'][2])
+        n = len(ents)
+        if pos >= n:
+            env[ins['name']] = (False, kz, vz)
+            return st
+        st.heap[oid] = ('iterpos', pos + 1)
+        if isinstance(rot, int):
+            k, v = ents[(pos + rot) % n]
+        else:
+            k, v = ents[(pos + n - 1) % n]
+            for r in range(n - 2, -1, -1):
+                g = rot == z3.BitVecVal(r, 8)
+                ek, ev = ents[(pos + r) % n]
+                k = merge_val(g, ek, k, self.p, t['elems'][1])
+                v = merge_val(g, ev, v, self.p, t['elems'][2])
+        env[ins['name']] = (True, k, v)
+        return st
 
     def op_SliceToArrayPointer(self, fn, ins, env, st):
         raise Unsupported('slice to array pointer')
@@ -2121,6 +2174,9 @@ def merge_val(g, a, b, P=None, tid=None):
         if a.eq(b):
             return a
         return z3.If(g, a, b)
+    if ta is tuple and tb is tuple and len(a) == 2 and len(b) == 2 and a[0] == 'iterpos' and b[0] == 'iterpos':
+        # iterator positions of paths that left the loop at different points: the iterator is dead afterwards
+        return a if a[1] == b[1] else ('iterpos', None)
     if ta is tuple and tb is tuple and len(a) == 2 and len(b) == 2 and a[0] == 'map' and b[0] == 'map':
         ea, eb = list(a[1]), list(b[1])
         # common prefix of keys is kept aligned; entries only one side has are absent on the other
@@ -2406,6 +2462,7 @@ def install_default_intrinsics(ex):
         return None, st
     I['v:vTwinBegin'] = vtwin
     I['v:vTwinGap'] = lambda ex, st, args, pos: (None, st)
+    I['v:vRepeat'] = lambda ex, st, args, pos: (1, st)
 
     # environment primitives whose result is not a function of the emulator state: each call yields a fresh,
     # unconstrained value (C24: a twin run that reaches one may differ)
